@@ -10,9 +10,18 @@ fn fwd(op: &Op, _ctx: &dyn Context, operands: &mut dyn CoordinateSet) -> usize {
     let mut successes = 0_usize;
     let n = operands.len();
 
-    // Nothing to do?
+    // No grids at all (every grid optional and unavailable): Every point is
+    // outside of the grid coverage. So unless the null grid is given, in which
+    // case they are passed through unchanged, the points are stomped on and
+    // counted as errors, as documented
     if grids.is_empty() {
-        return n;
+        if use_null_grid {
+            return n;
+        }
+        for i in 0..n {
+            operands.set_coord(i, &Coor4D::nan());
+        }
+        return 0;
     }
 
     for i in 0..n {
@@ -53,9 +62,18 @@ fn inv(op: &Op, _ctx: &dyn Context, operands: &mut dyn CoordinateSet) -> usize {
     let mut successes = 0_usize;
     let n = operands.len();
 
-    // Nothing to do?
+    // No grids at all (every grid optional and unavailable): Every point is
+    // outside of the grid coverage. So unless the null grid is given, in which
+    // case they are passed through unchanged, the points are stomped on and
+    // counted as errors, as documented
     if grids.is_empty() {
-        return n;
+        if use_null_grid {
+            return n;
+        }
+        for i in 0..n {
+            operands.set_coord(i, &Coor4D::nan());
+        }
+        return 0;
     }
 
     'points: for i in 0..n {
